@@ -349,9 +349,17 @@ func (e *Executor) execute(ctx context.Context, isRootPlan bool, p *Plan, keys [
 		}
 		optionalRespMetadata = append(optionalRespMetadata, optionalRespQueryMetaData)
 	} else {
-		res = []interface{}{
-			map[string]interface{}{},
+		// No service runs the root plan itself; the only selections it can hold
+		// are __typename ones, which the gateway answers.
+		root := map[string]interface{}{}
+		if p.SelectionSet != nil {
+			for _, selection := range p.SelectionSet.Selections {
+				if selection.Name == "__typename" {
+					root[selection.Alias] = p.Type
+				}
+			}
 		}
+		res = []interface{}{root}
 	}
 
 	g, ctx := errgroup.WithContext(ctx)
